@@ -25,9 +25,16 @@ ENVS = [
     {"LANG": "tr_TR.UTF-8", "HOME": "/nonexistent", "TMPDIR": "/nonexistent"},
     {"CLICOLOR": "0", "COLUMNS": "1"},
     {"TZ": "Pacific/Kiritimati", "SOURCE_DATE_EPOCH": "1"},
+    {"TZ": "JST-9", "LANG": "ja_JP.UTF-8"},
+    {"TZ": "PST8PDT,M3.2.0,M11.1.0", "LC_TIME": "en_US"},
+    {"TZ": "UTC0"},
 ]
 
-STRUCTURED = {"v-s-json", "v-s-yaml", "v-s-sarif", "v-s-junit", "v-printjson", "pt-json", "pt-yaml", "t-json", "t-yaml", "t-junit"}
+# timestamps for the function rules: with zone, without zone (environment-sensitive if ever accepted), inside a DST gap, non-RFC3339 forms
+WHENS = ["2024-08-21T00:00:00Z", "2024-08-21T00:00:00", "2024-03-10T02:30:00", "2024-08-21 00:00:00", "2024-08-21", "2024-08-21T00:00:00+09:00",
+         "2024-08-21T00:00:00.5-07:00", "Wed, 21 Aug 2024 00:00:00 GMT", "1724198400", "2024-11-03T01:30:00", "20240821T000000", "2024-08-21T00:00:00 PST"]
+
+STRUCTURED = {"fn-epoch-s-json", "fn-misc-s-yaml", "v-s-json", "v-s-yaml", "v-s-sarif", "v-s-junit", "v-printjson", "pt-json", "pt-yaml", "t-json", "t-yaml", "t-junit"}
 TIME_RE = re.compile(rb'(time="[^"]*"|"time":\s*\d+|\btime:\s*\d+)')
 ANSI = re.compile(rb"\x1b\[[0-9;]*m")
 
@@ -88,6 +95,10 @@ def modes_for(sdir):
         "t-console": ["test", "-d", T],
         "t-console-verbose": ["test", "-r", os.path.join(T, "r1.guard"), "-t", os.path.join(T, "tests", "r1_tests.json"), "-v"],
         "rulegen": ["rulegen", "-t", os.path.join(sdir, "d", "d0.json")],
+        "fn-epoch-s-json": ["validate", "-r", os.path.join(sdir, "fn1.guard")] + D + ["--structured", "-S", "none", "-o", "json"],
+        "fn-epoch-console": ["validate", "-r", os.path.join(sdir, "fn1.guard")] + D + ["-S", "all"],
+        "fn-misc-s-yaml": ["validate", "-r", os.path.join(sdir, "fn2.guard")] + D + ["--structured", "-S", "none", "-o", "yaml"],
+        "fn-misc-console": ["validate", "-r", os.path.join(sdir, "fn2.guard")] + D + ["-S", "all", "-v"],
     }
 
 
@@ -97,6 +108,9 @@ def build_inputs(rng, sdir):
     for d in docs:
         d.setdefault("Resources", {"x": {"Type": "AWS::S3::Bucket", "Properties": {"a": 1}}})
         d["a"] = rng.choice([1, "x", [1, 2]])
+        d["when"] = rng.choice(WHENS) if rng.random() < 0.35 else rng.choice([w for w in WHENS if w[-1] == "Z" or w[-6] in "+-"])
+        d["name"] = rng.choice(["istanbul", "İSTANBUL", "straße", "ǅ", "abc"])
+        d["num"] = rng.choice(["12", "1.5", 7, 2.5, "0x10"])
     shutil.rmtree(sdir, ignore_errors=True)
     os.makedirs(os.path.join(sdir, "d"))
     os.makedirs(os.path.join(sdir, "t", "tests"))
@@ -120,6 +134,14 @@ def build_inputs(rng, sdir):
         t = gen.pfile(f)
         texts.append(t)
         open(os.path.join(sdir, "r%d.guard" % i), "w").write(t)
+    # function rules: every failure message carries the computed value, so any environment dependence reaches the bytes
+    open(os.path.join(sdir, "fn1.guard"), "w").write(
+        "rule fn_epoch {\n    let e = parse_epoch(when)\n    %e < 1000 <<epoch>>\n    %e > 1724198400\n}\n")
+    open(os.path.join(sdir, "fn2.guard"), "w").write(
+        "rule fn_case {\n    let u = to_upper(name)\n    let l = to_lower(name)\n    %u == \"?\"\n    %l == \"?\"\n}\n"
+        "rule fn_count {\n    let c = count(Resources.*)\n    %c < 0\n}\n"
+        "rule fn_conv {\n    let s = parse_string(num)\n    %s == \"?\"\n    let f = parse_float(num)\n    %f < 0.0\n}\n"
+        "rule fn_join {\n    let k = Resources[ keys == /./ ].Type\n    let j = join(%k, \"|\")\n    %j == \"?\"\n    let r = regex_replace(name, \"(?i)s\", \"$0$0\")\n    %r == \"?\"\n    let e = url_decode(name)\n    %e == \"?\"\n}\n")
     shutil.copy(os.path.join(sdir, "r1.guard"), os.path.join(sdir, "t", "r1.guard"))
     names = [r["name"] for r in f["rules"]]
     import re as _re
@@ -252,10 +274,10 @@ def main(tier, seed):
     core.build(need_cli=True)
     res = core.run_shards(shard, seed, tier, "C05")
     mo = res.extra.get("modes_with_output", set())
-    floor = {"cases": (res.cases, 500), "modes_with_nonempty_output": (len([m for m in mo if not m.endswith(":EMPTY")]), 18),
+    floor = {"cases": (res.cases, 500), "modes_with_nonempty_output": (len([m for m in mo if not m.endswith(":EMPTY")]), 22),
              "in_process_repetitions": (res.counts["in_process_repetitions"], 200)}
     return core.finish("C05", tier, seed, res, t0,
-                       rule="generated inputs (2 rules files with >=3 rules each, 3 CloudFormation-shaped documents, a test spec) x 18 command/output modes, each "
+                       rule="generated inputs (2 rules files with >=3 rules each, 3 CloudFormation-shaped documents, a test spec) x 22 command/output modes (4 of them function rules: parse_epoch on 12 timestamp spellings incl. zone-less and DST-gap ones, case mapping, conversions, join/regex_replace), each "
                             "run N=5 (quick) / 8 (thorough) times as a fresh process under rotated environments and cwd, plus 5 in-process repetitions of 3 "
                             "payload modes; distinct = (mode, output size bucket, exit code)",
                        floor=floor,
